@@ -61,6 +61,11 @@ CLAIMED["C12"] = ("finite-domain abstract interpretation of the tag-collection a
     "Complete decision of the distinct-once clause over (tag present, already seen), of the slot/candidate agreement (shared with C06) and of the default-tag "
     "insertion tables; structural decision that bias and both weight stores use class_offset + label with one offset variable and one n_class. "
     "Equality of stored scores with the classifier is not decided.", "DESIGN.md §4 C12")
+CLAIMED["C08"] = ("kill sets + interprocedural reads-before-kill dataflow, who-may-write scan, deep interior-mutability type walk, type-level witnesses (Send/Sync, E0597)",
+    "History clause: every update overwrites every field (shared with C05) and prediction reads no field left by an earlier use before overwriting it "
+    "(complete over all paths, through callee summaries). Schedule clause: complete modulo trusted crates - no UnsafeCell reachable from Predictor, "
+    "shared-reference-only call graph, no mutable statics/thread-locals, Send+Sync witness; hence results are functions of (*self,*sentence). "
+    "Output equality as values is not decided.", "DESIGN.md §4 C08")
 NOT_YET = {}
 
 def main():
